@@ -17,6 +17,9 @@ func propC19(c *Ctx, r *Report) {
 		"acceptance equivalence under the edits; comment skipping and nested block comments in the lexer; '>>' / '>=' splitting; redundant parentheses and trailing commas in the parser; renaming invariance (declaration ordering by dependency, name-keyed maps)")
 	c.runPositionSinks(r, "pos.sink", "wgsl/internal/lower")
 	r.floor("positions.reads", 5)
+	r.Clauses = append(r.Clauses, "syntax-tree walkers (E3): every function reachable from the parser / lowerer entry points that walks the parser's tree (a type switch over Expr, Stmt, Type or Decl nodes using every child in >= 3/4 of its arms) uses every child node of every variant it has an arm for and, when it has no default arm, has an arm for every variant that has children (dependency ordering that misses a reference makes acceptance depend on declaration order)")
+	c.runFrontendASTWalkers(r, "frontend")
+	r.floor("frontend.astwalkers", 8)
 }
 
 // fieldReads counts reads of ir.<T>.<field> per package.
